@@ -63,6 +63,8 @@ Record impl := Impl {
   ch_droprx : chan -> rx -> chan * out;          (* drop(Stream): ODone/OPanic/OFuel            *)
   ch_clone : chan -> chan;                       (* State::clone (channel part)                 *)
   ch_droptx : chan -> chan;                      (* drop(State) of one handle                   *)
+  rx_waiting : chan -> rx -> bool;               (* the stream's last poll returned Pending and its
+                                                    waker is still registered with the channel  *)
   on_new : once;                                 (* Once::new                                   *)
   on_notify : once -> N -> once * out;           (* Once::notify: ODone/OPanic                  *)
   on_drop : once -> once;                        (* drop(Once)                                  *)
@@ -75,6 +77,15 @@ Fixpoint upd {A} (l : list A) (i : nat) (x : A) : list A :=
   | _ :: l', O => x :: l'
   | y :: l', S i' => y :: upd l' i' x
   end.
+
+(* A receiver as all three machines below see it: its position in the sequence of published
+   values and, when its last poll returned Pending, the notification epoch in which its waker was
+   registered with the channel (tokio: the Recv future's waiter queued in Tail.waiters; smol: the
+   EventListener on Inner.recv_ops).  Every "notify everybody" of a channel starts a new epoch and
+   wakes the wakers registered before it. *)
+Record brx := BRx { r_pos : Z; r_lst : option nat }.
+Definition parked_at (epoch : nat) (r : brx) : bool :=
+  match r_lst r with Some e => negb (e <? epoch) | None => false end.
 
 Section Machine.
 Variable I : impl.
@@ -152,6 +163,20 @@ Definition step (st : state) (o : op) : state * out :=
       (St (handles st) (ch st) (subs st) (notifier st) n', o')
   end.
 
+(* subscriber s is parked: its stream returned Pending and its waker is still registered *)
+Definition parked_in (st : state) (s : nat) : bool :=
+  match nth_error (subs st) s with
+  | Some (Some r) => rx_waiting I (ch st) r
+  | _ => false
+  end.
+(* the subscribers whose registered waker operation o wakes: parked before, not parked after
+   (a stream that o itself drops is not woken, it is gone) *)
+Definition woken_by (st : state) (o : op) : list nat :=
+  let st' := fst (step st o) in
+  filter (fun s => parked_in st s && negb (parked_in st' s) &&
+                   match o with DropSub s' => negb (Nat.eqb s' s) | _ => true end)
+         (seq 0 (length (subs st))).
+
 Fixpoint run_from (st : state) (ops : list op) : list out :=
   match ops with
   | [] => []
@@ -169,6 +194,14 @@ Definition final (ops : list op) : state := final_from init ops.
 (* the result of operation o when it is performed after the history ops
    (run (ops ++ [o]) = run ops ++ [next ops o], see C20_next) *)
 Definition next (ops : list op) (o : op) : out := snd (step (final ops) o).
+Definition parked (ops : list op) (s : nat) : bool := parked_in (final ops) s.
+Definition woken (ops : list op) (o : op) : list nat := woken_by (final ops) o.
+Fixpoint wakes_from (st : state) (ops : list op) : list (list nat) :=
+  match ops with
+  | [] => []
+  | o :: ops' => woken_by st o :: wakes_from (fst (step st o)) ops'
+  end.
+Definition wakes (ops : list op) : list (list nat) := wakes_from init ops.
 (* the observable history: every operation with its result *)
 Definition trace (ops : list op) : list (op * out) := combine ops (run ops).
 End Machine.
@@ -183,20 +216,23 @@ Arguments notifier {I}. Arguments onc {I}.
    (capacity 1: mask = 0, every index is 0, buffer.len() = 1) *)
 Record tslot := TSlot { sl_pos : Z; sl_rem : nat; sl_val : option N }.
 Record tchan := TChan { tl_pos : Z; tl_rx : nat; tl_closed : bool; tl_slot : tslot;
-                        tl_tx : nat (* Shared.num_tx: live Sender handles *) }.
+                        tl_tx : nat (* Shared.num_tx: live Sender handles *);
+                        tl_epoch : nat (* calls of Shared::notify_rx so far *) }.
 
 (* Sender::new_with_receiver_count(1, 1) (broadcast.rs:543-575): slot.pos = 0u64.wrapping_sub(1),
    i.e. -1; tail.pos = 0; rx_cnt = 1 *)
-Definition t_fresh : tchan := TChan 0 1 false (TSlot (-1) 0 None) 1.
+Definition t_fresh : tchan := TChan 0 1 false (TSlot (-1) 0 None) 1 0.
 
 (* Sender::send (broadcast.rs:631-667) *)
 Definition t_send (c : tchan) (v : N) : tchan * bool :=
   if Nat.eqb (tl_rx c) 0 then (c, false)
-  else (TChan (tl_pos c + 1) (tl_rx c) (tl_closed c) (TSlot (tl_pos c) (tl_rx c) (Some v)) (tl_tx c), true).
+  else (TChan (tl_pos c + 1) (tl_rx c) (tl_closed c) (TSlot (tl_pos c) (tl_rx c) (Some v)) (tl_tx c)
+        (S (tl_epoch c)) (* self.shared.notify_rx(tail), :664 *), true).
 
 (* new_receiver (broadcast.rs:924-942) *)
 Definition t_subscribe (c : tchan) : tchan * Z :=
-  (TChan (tl_pos c) (S (tl_rx c)) (if Nat.eqb (tl_rx c) 0 then false else tl_closed c) (tl_slot c) (tl_tx c),
+  (TChan (tl_pos c) (S (tl_rx c)) (if Nat.eqb (tl_rx c) 0 then false else tl_closed c) (tl_slot c) (tl_tx c)
+         (tl_epoch c),
    tl_pos c).
 
 (* Drop for RecvGuard (broadcast.rs:1712-1719): `if 1 == rem.fetch_sub(1) { val = None }`.
@@ -206,7 +242,7 @@ Definition t_release (c : tchan) : tchan :=
   let sl := tl_slot c in
   TChan (tl_pos c) (tl_rx c) (tl_closed c)
         (TSlot (sl_pos sl) (sl_rem sl - 1) (if Nat.eqb (sl_rem sl) 1 then None else sl_val sl))
-        (tl_tx c).
+        (tl_tx c) (tl_epoch c).
 
 Inductive rref := ROk (v : option N) | REmpty | RLagged (n : Z) | RClosed.
 
@@ -272,22 +308,23 @@ Fixpoint t_drain (fuel : nat) (c : tchan) (next until : Z) : tchan * out :=
 
 Definition t_droprx (c : tchan) (next : Z) : tchan * out :=
   let rxn := (tl_rx c - 1)%nat in
-  let c1 := TChan (tl_pos c) rxn (if Nat.eqb rxn 0 then true else tl_closed c) (tl_slot c) (tl_tx c) in
+  let c1 := TChan (tl_pos c) rxn (if Nat.eqb rxn 0 then true else tl_closed c) (tl_slot c) (tl_tx c)
+                  (tl_epoch c) in
   t_drain 3 c1 next (tl_pos c).
 
 (* State::new (zlink-tokio notified.rs:27-31): `let (tx, _) = broadcast::channel(1)` — the
    receiver is dropped at once.  Equals `fst (t_droprx t_fresh 0)` (Example in the proofs). *)
-Definition t_new : tchan := TChan 0 0 true (TSlot (-1) 0 None) 1.
+Definition t_new : tchan := TChan 0 0 true (TSlot (-1) 0 None) 1 0.
 
 (* Sender::clone (broadcast.rs:1058-1065): num_tx += 1 (State::clone, derived, clones `tx`) *)
 Definition t_clone (c : tchan) : tchan :=
-  TChan (tl_pos c) (tl_rx c) (tl_closed c) (tl_slot c) (S (tl_tx c)).
+  TChan (tl_pos c) (tl_rx c) (tl_closed c) (tl_slot c) (S (tl_tx c)) (tl_epoch c).
 
 (* Sender::drop (broadcast.rs:1067-1073): `if 1 == num_tx.fetch_sub(1) { close_channel() }`;
-   close_channel (broadcast.rs:905-910) sets tail.closed *)
+   close_channel (broadcast.rs:905-910) sets tail.closed and calls notify_rx *)
 Definition t_droptx (c : tchan) : tchan :=
   TChan (tl_pos c) (tl_rx c) (if Nat.eqb (tl_tx c) 1 then true else tl_closed c) (tl_slot c)
-        (tl_tx c - 1).
+        (tl_tx c - 1) (if Nat.eqb (tl_tx c) 1 then S (tl_epoch c) else tl_epoch c).
 
 (* tokio oneshot (oneshot.rs): value cell, CLOSED/complete by a dropped sender, Receiver.inner *)
 Record tonce := TOnce { to_val : option N; to_txgone : bool; to_done : bool }.
@@ -306,7 +343,8 @@ Definition to_poll (o : tonce) : tonce * out :=
        | None => if to_txgone o then (TOnce None true true, OEnd) else (o, OPending)
        end.
 
-Definition tokio_impl : impl :=
+(* The value-level core: a receiver is just its position. *)
+Definition tokioZ_impl : impl :=
   Impl tchan Z tonce
        t_new
        (fun c v => (fst (t_send c v), ODone))     (* notified.rs:34-38: `let _ = self.tx.send(..)` *)
@@ -315,6 +353,31 @@ Definition tokio_impl : impl :=
        t_droprx
        t_clone
        t_droptx
+       (fun _ _ => false)
+       (TOnce None false false) to_notify to_drop to_poll.
+
+(* With the waker.  BroadcastStream keeps the `rx.recv()` future in its ReusableBoxFuture ACROSS
+   polls that return Pending (tokio-stream broadcast.rs:57-59: `ready!` returns before
+   `self.inner.set(..)`), so the waiter that recv_ref queued in Tail.waiters with the task's waker
+   (broadcast.rs:1263-1291) stays queued until Shared::notify_rx (called by send, :664, and by
+   close_channel, :909) drains the list and wakes every queued waiter.  A poll that completes
+   replaces the future: the old Recv is dropped and `Drop for Recv` unlinks its waiter. *)
+Definition t_sub (c : tchan) : tchan * brx :=
+  let '(c', p) := t_subscribe c in (c', BRx p None).
+Definition t_poll (c : tchan) (r : brx) : tchan * brx * out :=
+  let '(c', p', o) := t_stream_poll 3 c (r_pos r) in
+  (c', BRx p' (match o with OPending => Some (tl_epoch c') | _ => None end), o).
+
+Definition tokio_impl : impl :=
+  Impl tchan brx tonce
+       t_new
+       (fun c v => (fst (t_send c v), ODone))
+       t_sub
+       t_poll
+       (fun c r => t_droprx c (r_pos r))
+       t_clone
+       t_droptx
+       (fun c r => parked_at (tl_epoch c) r)
        (TOnce None false false) to_notify to_drop to_poll.
 
 (* ------------------------------------------------------------------------------------------ *)
@@ -333,8 +396,7 @@ Definition b_await_active : bool := false.
 Record bchan := BChan {
   b_queue : list (N * nat); b_head : Z; b_rx : nat; b_inactive : nat; b_closed : bool; b_epoch : nat;
   b_tx : nat }.
-(* Receiver { pos, listener } *)
-Record brx := BRx { r_pos : Z; r_lst : option nat }.
+(* Receiver { pos, listener } is brx *)
 
 (* Inner::close (lib.rs `fn close`): no-op when closed, else set and notify everybody *)
 Definition b_close (c : bchan) : bchan :=
@@ -511,28 +573,38 @@ Definition smol_impl : impl :=
        b_droprx
        b_clone
        b_drop_state
+       (fun c r => parked_at (b_epoch c) r)
        (SOnce None false 0 None false) so_notify so_drop so_poll.
 
 (* ------------------------------------------------------------------------------------------ *)
 (* (c) the reference: a latest-value cell.  n = number of values published while somebody was  *)
 (*     subscribed, a_last = the latest of them; a subscriber is just the count it has seen.    *)
 
-(* a_tx = number of live State handles; the cell is open while there is one *)
-Record achan := AChan { a_n : Z; a_last : N; a_rx : nat; a_tx : nat }.
+(* a_tx = number of live State handles; the cell is open while there is one; a_epoch counts
+   the notifications: a value published, or the last handle gone *)
+Record achan := AChan { a_n : Z; a_last : N; a_rx : nat; a_tx : nat; a_epoch : nat }.
 Definition a_open (c : achan) : bool := negb (Nat.eqb (a_tx c) 0).
 Inductive aonce := AIdle | AArmed (v : N) | ADead | AFinished.
 
 Definition a_set (c : achan) (v : N) : achan * out :=
-  (if Nat.eqb (a_rx c) 0 then c else AChan (a_n c + 1) v (a_rx c) (a_tx c), ODone).
+  (if Nat.eqb (a_rx c) 0 then c else AChan (a_n c + 1) v (a_rx c) (a_tx c) (S (a_epoch c)), ODone).
 Definition a_sub (c : achan) : achan * Z :=
-  (AChan (a_n c) (a_last c) (S (a_rx c)) (a_tx c), a_n c).
+  (AChan (a_n c) (a_last c) (S (a_rx c)) (a_tx c) (a_epoch c), a_n c).
 Definition a_poll (c : achan) (k : Z) : achan * Z * out :=
   if (k <? a_n c)%Z then (c, a_n c, OItem (a_last c) CTrue)
   else (c, k, if a_open c then OPending else OEnd).
 Definition a_droprx (c : achan) (k : Z) : achan * out :=
-  (AChan (a_n c) (a_last c) (a_rx c - 1) (a_tx c), ODone).
-Definition a_clone (c : achan) : achan := AChan (a_n c) (a_last c) (a_rx c) (S (a_tx c)).
-Definition a_droptx (c : achan) : achan := AChan (a_n c) (a_last c) (a_rx c) (a_tx c - 1).
+  (AChan (a_n c) (a_last c) (a_rx c - 1) (a_tx c) (a_epoch c), ODone).
+Definition a_clone (c : achan) : achan := AChan (a_n c) (a_last c) (a_rx c) (S (a_tx c)) (a_epoch c).
+Definition a_droptx (c : achan) : achan :=
+  AChan (a_n c) (a_last c) (a_rx c) (a_tx c - 1)
+        (if Nat.eqb (a_tx c) 1 then S (a_epoch c) else a_epoch c).
+
+(* with the registration: Pending => registered (in the current epoch) *)
+Definition a_subw (c : achan) : achan * brx := let '(c', k) := a_sub c in (c', BRx k None).
+Definition a_pollw (c : achan) (r : brx) : achan * brx * out :=
+  let '(c', k', o) := a_poll c (r_pos r) in
+  (c', BRx k' (match o with OPending => Some (a_epoch c') | _ => None end), o).
 
 Definition ao_notify (o : aonce) (v : N) : aonce * out :=
   match o with AIdle => (AArmed v, ODone) | _ => (o, OPanic) end.
@@ -545,9 +617,16 @@ Definition ao_poll (o : aonce) : aonce * out :=
   | AFinished => (AFinished, OEnd)
   end.
 
+(* the value-level core of the reference (what the property speaks about) ... *)
+Definition absZ_impl : impl :=
+  Impl achan Z aonce (AChan 0 0 0 1 0) a_set a_sub a_poll a_droprx a_clone a_droptx
+       (fun _ _ => false) AIdle ao_notify ao_drop ao_poll.
+(* ... and the reference with the wake-up obligation: a subscriber is registered from the poll
+   that returned Pending until the next notification; every operation that changes what a
+   registered subscriber would see (a value published, the last handle dropped) notifies. *)
 Definition abs_impl : impl :=
-  Impl achan Z aonce (AChan 0 0 0 1) a_set a_sub a_poll a_droprx a_clone a_droptx
-       AIdle ao_notify ao_drop ao_poll.
+  Impl achan brx aonce (AChan 0 0 0 1 0) a_set a_subw a_pollw (fun c r => a_droprx c (r_pos r))
+       a_clone a_droptx (fun c r => parked_at (a_epoch c) r) AIdle ao_notify ao_drop ao_poll.
 
 (* ------------------------------------------------------------------------------------------ *)
 (* Vocabulary of the property, over observable histories                                       *)
